@@ -116,6 +116,18 @@ PROPS = {
                 "point's event from outside while the exit point is not active",
         "assumptions": CORE_ASSUME + ["back11: machines with exit points are skipped (the library does not compile them)"],
     },
+    "C14": {
+        "profile": None, "n_quick": 1500, "n_thorough": 40000, "cfgs": ["puml"],
+        "custom": "puml",
+        "monitor": None, "relevant": lambda fd, r: True,
+        "rule": "PlantUML lines generated from the documented line grammar (identifiers, 1-4 dashes, optional event / "
+                "internal '-event' / Kleene '*', 0-3 actions, optional guard expression, either order of the action and guard "
+                "parts, blank/tab padding at every gap): exhaustive over the shape space x 3 random fillings, plus seeded random "
+                "lines; the library's own parse_row / cleanup_token / parse_action / count_actions / count_transitions are called "
+                "at run time and compared (a) with the fields the grammar defines and (b) with the Coq transcription; a separate "
+                "malformed stream is compared with the transcription only; distinct = distinct line texts",
+        "assumptions": ["lines shorter than 2^64 characters", "the type-level part (parse_guard, create_transition_table) is not modelled"],
+    },
     "C17": {
         "profile": "flags", "n_quick": 5, "n_thorough": 40, "nops": 16, "nlists": 3, "cfgs": SIX,
         "monitor": None,
@@ -142,6 +154,20 @@ PROPS = {
                 "observation was checked against the documented table",
         "assumptions": ["the four policies are compared on the same machines and operation lists; behaviours do not throw"],
     },
+    "C20": {
+        "profile": "rtc", "n_quick": 40, "n_thorough": 1500, "cfgs": ["store"],
+        "custom": "store",
+        "monitor": None, "relevant": lambda fd, r: True,
+        "rule": "basic_polymorphic driven directly, built with -fsanitize=address,undefined: 32 event types (sizes 1-512, "
+                "alignments 1-64; trivially copyable, non-trivial, throwing move, self-referential), seeded random histories "
+                "of make / copy-construct / copy-assign / move-construct / move-assign / destroy / clear over 6 cells; after "
+                "every operation value, storage kind (inline / heap / null) and the live-object count are compared with the "
+                "Coq ledger model, and the probe checks byte patterns, alignment, self pointers and an address registry; plus "
+                "2 (quick) queue/deferral machines per engine run under the same sanitizers",
+        "assumptions": ["histories stay inside the library's own use of the type: no copy from an empty or moved-from-heap "
+                        "element (the pool never holds one)", "reads of freed / out-of-bounds / uninitialised memory are only "
+                        "detectable at run time: ASan + UBSan on the sampled histories, not a theorem"],
+    },
 }
 
 def prebuild():
@@ -151,6 +177,8 @@ def prebuild():
     seed = int(os.environ.get("VERIF_SEED", "1"))
     jobs = {}
     for prop, spec in PROPS.items():
+        if spec.get("custom"):
+            continue
         for name, g, md in checklib.machines_for(spec["profile"], seed, spec["n_quick"]):
             for c in spec["cfgs"]:
                 md2 = msmgen.adapt(md, c)
